@@ -30,6 +30,27 @@ Fixpoint first_reject (check : heap -> ann -> value -> outcome unit) (h : heap) 
     end
   end.
 
+(* the value the property text gives field f of the object a construction path is about to build:
+   the keyword value where given; otherwise, for copy_with / deep_copy_with (orig = the receiver), the
+   original's value (a deep copy has the same content); otherwise the default.  No decorator program involved. *)
+Definition spec_value (h : heap) (orig : option nat) (kw : list (name * value)) (f : field) : option (heap * value) :=
+  match (if f_init f then lookup kw (f_name f) else None) with
+  | Some v => Some (h, v)
+  | None =>
+    match (if f_init f then match orig with Some r0 => getattr h r0 (f_name f) | None => None end else None) with
+    | Some v => Some (h, v)
+    | None =>
+      match f_default f with
+      | DVal v => Some (h, v)
+      | DFactory k => Some (h ++ [mkObj k [] []], VRef (List.length h))
+      | DNone => None
+      end
+    end
+  end.
+(* the request is one the property speaks about: every keyword names a field that takes part in __init__ *)
+Definition request_ok (fs : list field) (kw : list (name * value)) : bool :=
+  forallb (fun nv => existsb (fun f => Nat.eqb (f_name f) (fst nv) && f_init f) fs) kw.
+
 Definition is_check (e : event) : bool := match e with ECheck _ _ => true | EPi _ => false end.
 
 (* ---- C11: the field of the copy named n: kw where given, the original's otherwise *)
